@@ -55,6 +55,12 @@ F = {
     'f_fatal': None,   # placeholder: fatal ends the run, nothing follows
     'f_defsym': '\tcpu 6502\nsym\tequ 5\nm1\tmacro\n\tnop\n\tendm\n\tfoo\n',
     'f_sh_literal': '\tcpu sh7600\n\torg 0\n\tmov.l #$cafebabe,r1\n\trts\n\tnop\n',       # fails: literal pool never flushed by LTORG
+    # error-free: the last machine instruction changes a register the C16x pipeline still watches in the next instruction
+    'f_ok_166pipe': '\tcpu 80c167\ndpp0\tequ 0fe00h\n\tnop\n\tmov dpp0,#0\n',
+    'f_ok_166sp': '\tcpu 80c167\nsp\tequ 0fe12h\ncp\tequ 0fe10h\n\tnop\n\tmov cp,#0fc00h\n',
+    'g_166use': '\tcpu 80c167\n\tmov r0,1234h\n\tnop\n',
+    # no CPU statement: assembled for the CPU (and CPU arguments) given with -cpu
+    'g_nocpu': '\tnop\n\tnop\n',
     'f_ok_defsym': '\tcpu 6502\nstart\tequ 5\nloop\tequ 6\nm1\tmacro\n\tnop\n\tendm\n\tnop\n',
 }
 del F['f_fatal']
@@ -110,6 +116,18 @@ def subspaces(tier):
                     yield {'k': 'seq', 'files': ['half:' + t, 'tiny:' + t], 'flags': list(fl)}
                     yield {'k': 'seq', 'files': ['f_sh_literal', 'f_ok_defsym', 'tiny:' + t], 'flags': list(fl)}
     subs.append(('pairs:truncated-self-as-predecessor', selfpairs()))
+
+    def cpuopt():
+        # CPU and CPU arguments from the command line hold for every file and pass
+        for fl in (['-cpu', 'z8002:amdsyntax=1'], ['-cpu', 'atmega8:codesegsize=0'], ['-cpu', 'z80'], ['-cpu', '8051']):
+            for pred in ('g_nocpu', 'f_ok_defsym', 'f_macro', 'f_radix'):
+                yield {'k': 'seq', 'files': [pred, 'g_nocpu'], 'flags': fl}
+                yield {'k': 'seq', 'files': [pred, 'g_nocpu', 'g_nocpu'], 'flags': fl}
+        for succ in ('g_166use',):
+            for pred in ('f_ok_166pipe', 'f_ok_166sp', 'g_166use'):
+                yield {'k': 'seq', 'files': [pred, succ], 'flags': []}
+                yield {'k': 'seq', 'files': [pred, 'f_ok_defsym', succ], 'flags': []}
+    subs.append(('cpu-option-and-pipeline-state', cpuopt()))
     OPTS18 = [['-u'], ['-C'], ['-A'], ['-L'], ['-g', 'MAP'], ['-s', '-L'], ['-x', '-x'], ['-P'], ['-M'], ['-r'], ['-u', '-Werror'], ['-I', '-L'], ['-t', '255', '-L']]
 
     def optpairs():
@@ -164,7 +182,8 @@ def putfile(t):
 
 def diag_for(txt, name):
     # per-file slice of the error channel: lines naming the file (native '> > > name.asm(' prefix)
-    return [l for l in txt.split('\n') if l.startswith('> > > %s/%s.asm(' % (name, name))]
+    # (messages name the file without its directory)
+    return [l for l in txt.split('\n') if l.startswith('> > > %s/%s.asm(' % (name, name)) or l.startswith('> > > %s.asm(' % name)]
 
 
 def solo(t, flags):
@@ -174,7 +193,8 @@ def solo(t, flags):
         putfile(t)
         o = core.run('asl', flags + ['-q', '-i', corpus.incdir(), t + '/' + t + '.asm'], timeout=120)
         p = core.get(t + '/' + t + '.p')
-        _solo[key] = (o.rc, hashlib.sha1(p).hexdigest() if p is not None else None, diag_for((o.out + o.err).decode('latin-1'), t), core.crashkind(o))
+        txt = (o.out + o.err).decode('latin-1')
+        _solo[key] = (o.rc, hashlib.sha1(p).hexdigest() if p is not None else None, diag_for(txt, t), core.crashkind(o), [l for l in txt.split('\n') if l.startswith('> > > INTERNAL')])
     return _solo[key]
 
 
@@ -201,6 +221,11 @@ def evaluate(case):
         dg = diag_for(txt, t)
         if dg != solos[i][2]:
             return core.R(False, 'diagnostics', 'diagnostics/after-%s' % files[i - 1] if i else 'diagnostics/first', 'diagnostics for %s differ from solo run in %s: %s vs %s' % (t, d, dg[:2], solos[i][2][:2]), transitions=ntr)
+    # diagnostics without a source position (INTERNAL: option and CPU-argument parsing per file and pass, end-of-file checks)
+    internal = sorted(l for l in txt.split('\n') if l.startswith('> > > INTERNAL'))
+    want_int = sorted(l for s_ in solos for l in s_[4])
+    if internal != want_int:
+        return core.R(False, 'diagnostics', 'diagnostics/without-position', 'messages without position %s, the solo runs give %s in %s' % (internal[:2], want_int[:2], d), transitions=ntr)
     if o.rc != wantrc:
         return core.R(False, 'rc', 'rc/%s' % files[0], 'exit status %s, solo runs imply %s in %s' % (o.rc, wantrc, d), transitions=ntr)
     return core.R(True, 'same-as-solo', states=['>'.join(files[:-1]) if len(files) > 2 else files[0]], transitions=ntr)
